@@ -98,9 +98,9 @@ func VerifC15Boards() {
 	if e1 != nil && e2 != nil {
 		nd.Cover("oracle")
 		nd.Assert(c15Body(boards[0]) == c15Body(e1), "the first board has the inherited content plus its own changes")
-		if kind == "steps" && strings.HasPrefix(s1, "*") && nd.Known("C15-step-glob-not-carried") {
-			// recorded finding: a glob declared inside a step is not applied to objects
-			// that the next step creates (globs of the base are)
+		if kind == "steps" && (strings.HasPrefix(s1, "*") || strings.HasPrefix(s1, "(*")) && nd.Known("C15-step-glob-not-carried") {
+			// recorded finding: a glob (object or connection glob) declared inside a step is not
+			// applied to objects and connections that the next step creates (globs of the base are)
 			return
 		}
 		nd.Assert(c15Body(boards[1]) == c15Body(e2), "the second board has the inherited content plus its own changes (siblings do not leak)")
